@@ -1166,19 +1166,24 @@ def i_IMUL(i, fmap):
     if len(i.operands) == 1:
         src = i.operands[0]
         m, d = {8: (al, ah), 16: (ax, dx), 32: (eax, edx), 64: (rax, rdx)}[src.size]
-        r = fmap(m ** src)
+        a, b = fmap(m), fmap(src)
     elif len(i.operands) == 2:
         dst, src = i.operands
         m = d = dst
-        r = fmap(dst ** src)
+        a, b = fmap(dst), fmap(src)
     else:
         dst, src, imm = i.operands
         m = d = dst
-        r = fmap(src ** imm.signextend(src.size))
-    lo = r[0 : src.size]
-    hi = r[src.size : r.size]
-    fmap[cf] = hi != (lo >> 31)
-    fmap[of] = hi != (lo >> 31)
+        a, b = fmap(src), imm.signextend(src.size)
+    n = src.size
+    # signed product on twice the operand size:
+    r = a.signextend(2 * n) * b.signextend(2 * n)
+    lo = r[0:n]
+    hi = r[n : 2 * n]
+    # CF and OF are set when the truncated result is not the whole (signed) product:
+    ovf = hi != lo.signextend(2 * n)[n : 2 * n]
+    fmap[cf] = ovf
+    fmap[of] = ovf
     d, hi = _r32_zx64(d, hi)
     fmap[d] = hi
     m, lo = _r32_zx64(m, lo)
